@@ -56,6 +56,8 @@ func caretRule(p *load.Program, s *oblig.Set) {
 	intT := types.Typ[types.Int]
 	o := &absint.Oracle{}
 	paths := 0
+	nRepeat := 0
+	badRepeat := map[string]bool{}
 	for n := 0; n < 2000; n++ {
 		paths++
 		in := absint.NewInterp(p.SSA, o)
@@ -74,13 +76,28 @@ func caretRule(p *load.Program, s *oblig.Set) {
 		base.AddCmp(token.LEQ, from, to, true)
 		base.AddCmp(token.LEQ, to, in.LenOf(line), true)
 		facts := func() *absint.LinFacts {
-			f := &absint.LinFacts{GE: append([]absint.Lin(nil), base.GE...), NE: append([]absint.Lin(nil), base.NE...)}
+			f := base.Copy()
 			for _, c := range in.CondV {
 				f.AddCond(c)
 			}
 			return f
 		}
 		nIdx := 0
+		in.Hooks.Builtin = func(in *absint.Interp, name string, args []absint.Val, site ssa.Instruction) (absint.Val, bool) {
+			if (name != "max" && name != "min") || len(args) != 2 {
+				return nil, false
+			}
+			a, ok1 := absint.LinOf(args[0])
+			b, ok2 := absint.LinOf(args[1])
+			if !ok1 || !ok2 {
+				return nil, false
+			}
+			nIdx++
+			mv := absint.NewVar(fmt.Sprintf("%s#%d", strings.ToUpper(name), nIdx), intT)
+			ml, _ := absint.LinOf(mv)
+			base.AddMax(ml, a, b, name == "max")
+			return mv, true
+		}
 		in.Hooks.Slice = func(in *absint.Interp, x, lo, hi, mx absint.Val, site ssa.Instruction) (absint.Val, bool) {
 			xs, isSym := x.(*absint.Sym)
 			if !isSym {
@@ -138,6 +155,13 @@ func caretRule(p *load.Program, s *oblig.Set) {
 				return from, true
 			case strings.HasSuffix(name, "combinator.Error).To"):
 				return to, true
+			case name == "strings.Repeat":
+				nRepeat++
+				cnt, ok := absint.LinOf(args[1])
+				if !ok || !facts().Proves(cnt) {
+					badRepeat[fmt.Sprintf("%s: count %s under [%s]", p.Pos(site.Pos()), absint.Key(args[1]), strings.Join(in.CondLog, "; "))] = true
+				}
+				return absint.NewVar("repeated", types.Typ[types.String]), true
 			case name == "strings.Index" || name == "strings.LastIndex":
 				nIdx++
 				r := absint.NewVar(fmt.Sprintf("%s#%d", callee.Name(), nIdx), intT)
@@ -198,5 +222,23 @@ func caretRule(p *load.Program, s *oblig.Set) {
 	}
 	if len(sites) == 0 {
 		s.OK("P12", "node.reportError / no slice expressions", pos, "nothing to bound")
+	}
+	// P5: strings.Repeat panics on a negative count
+	key5 := "node.reportError / caret and squiggle counts are never negative"
+	switch {
+	case nRepeat == 0:
+		s.OK("P5", key5, pos, "no strings.Repeat")
+	case len(badRepeat) == 0:
+		s.OK("P5", key5, pos, fmt.Sprintf("every strings.Repeat count is proved non-negative from the decisions of its path (%d evaluation(s) over %d path(s)), given 0 <= From <= To <= len(text)", nRepeat, paths))
+	default:
+		var l []string
+		for b := range badRepeat {
+			l = append(l, b)
+		}
+		sort.Strings(l)
+		if len(l) > 4 {
+			l = l[:4]
+		}
+		s.Bad("P5", key5, pos, "strings.Repeat panics on a negative count; a count does not follow to be non-negative from the comparisons on its path", l...)
 	}
 }
